@@ -16,6 +16,14 @@ CLAIMED = {
    text="Proof: 19 kernel-checked theorems (lt/gt/le/ge/eq iff the order of the values in Q for all exact operands with positive denominators; mixed comparisons are the binary32 comparison of the converted operands; n-ary chains are the conjunction of adjacent pairs; max/min return an argument that is extreme and are inexact iff some argument is; eqv? on well-formed numbers iff same exactness and equal value). Tie: all ordered pairs of the operand grid and triples of a sub-grid under = < > <= >= max min eqv?, real interpreter vs model vs exact rationals."),
  "C06": dict(design="5/C06", technique="Lean 4 theorems (per-class lexing round trips, atmosphere skipping, layout invariance lex_render, boundaries_at_delimiters, totality) about RuschmModel/Lex.lean,Read.lean + exhaustive short-string and random tree/layout correspondence + boundary oracle",
    text="Proof: kernel-checked theorems about the executable model of lexer.rs and the reader half of parser.rs: every supported token class lexes back to itself before a delimiter (incl. parseI32 (show i) = i for all i32), any atmosphere is skipped, LAYOUT INVARIANCE lex_render for every token list and every valid layout, tokens end only at delimiters (with the documented '#'-after-boolean/character residue, a known finding pinned by the repository's tests), the lexer is total. Tie: every string of length <= 4 over 17 structural characters (lexer and reader, tokens with locations) and random datum trees under random layouts, real code vs model vs the tree rendered."),
+ "C03": dict(design="5/C03", technique="Lean 4 theorems (set! locality/visibility, fresh frame per call, vector cells aliased by id, literal vectors immutable, store well-formedness invariant by induction over every evaluator step) about RuschmModel/Value.lean,Eval.lean,Prim.lean + random aliasing histories vs a Python reference store",
+   text="Proof: 20 kernel-checked theorems about the executable store-passing model of environment.rs/values.rs/interpreter.rs: set! writes exactly the binding lexical scoping designates and is seen by exactly the frames that resolve to it; every call allocates a frame no existing value mentions; vector-set! changes one cell, aliases are the same cell id wherever they are stored, literal cells are immutable and never change; store well-formedness and monotone growth are invariants of all eight evaluator functions (induction on fuel). Tie: random operation histories (counters, closure pairs sharing a binding, vectors aliased through variables/arguments/list and vector elements/captured references) on the real interpreter, the model and an independent Python reference."),
+ "C04": dict(design="5/C04", technique="Lean 4 theorems (first-match decision logic for all rule sets; matcher = declarative R7RS matcher and substitution = declarative instantiation on the supported class; no panic; termination) about RuschmModel/Macro.lean + random rule-set correspondence + independent Python R7RS matcher oracle",
+   text="Proof: kernel-checked theorems about the executable model of macros.rs and the pattern/template builders: the result is the first matching rule's template or exactly a syntax error (all rule sets); for the supported class (proper list/vector patterns, final ellipsis, depth 1, distinct variables) the matcher equals the declarative one-or-more R7RS matcher and instantiation repeats ellipsis sub-templates once per matched item in order; the get_mut().unwrap() can never fail; matching and (after the repair) expansion terminate. Out-of-class limits (non-final ellipsis, zero-item ellipsis) are stated and refuted by closed witnesses. Tie: random rule sets and uses, real expander vs model vs an independent Python matcher."),
+ "C05": dict(design="5/C05", technique="Lean 4 shape theorems about constants regenerated from grammar.sld on every run (one per bundled rule, all sub-forms and lengths) + C04 refinement + tick-trace correspondence + independent Python desugarer oracle",
+   text="Proof: 28 shape theorems, one per rule of the bundled grammar, stated about RuschmGen/Grammar.lean (regenerated from /repo/src/parser/grammar.sld on every run, self-checked against the model's reader and the real parser): for all sub-forms and lengths the expansion is exactly the expected core datum, with the side conditions rule order forces; any edit of grammar.sld re-opens them. Meaning is tied by running programs with ticking sub-forms in every position of begin/let/let*/cond/case/and/or/when/unless on the real interpreter, the model, and against the same program desugared by an independent R7RS desugarer (values and evaluation traces equal). Hygiene limits (capture of x/temp/atom-key) are documented known limits excluded from the generator."),
+ "C12": dict(design="5/C12", technique="Lean 4 theorems (evalImportSet = declarative denotation for every term, simultaneous rename, union, independence of export-list order for admissible declarations) about RuschmModel/Interp.lean + exhaustive depth<=2 term correspondence in 3 processes + Python algebra oracle",
+   text="Proof: kernel-checked theorems about the executable model of eval_import/eval_import_set: every import-set term (any nesting) denotes S.transform applied to the library's exports, rename is simultaneous, only-after-rename uses the new names, several sets contribute the union, and for admissible declarations the resulting bindings do not depend on the export-list (HashMap) order; without admissibility the order matters (closed witness). Tie: every operator at depth 1, sampled/all pairs at depth 2 over a 4-export native library, each in 3 processes with different hash seeds, real interpreter vs model vs an independent Python implementation of the algebra."),
 }
 
 NOT_YET = "check not built yet (work in progress; DESIGN.md section 10 gives the order of work)"
